@@ -582,6 +582,20 @@ class Gen(object):
             if cand:
                 path, f = rnd.choice(cand)
                 return [rnd.choice(["inrl", "inrl", "notinrl"]), ["f", path], rnd.choice(self.rl_names)]
+        if 0.40 <= r < 0.50:
+            # a constant expression on the LEFT of the comparison (a non-random field +- k, or a sized literal) against a random
+            # field: bounds inference has separate code for this shape
+            rands = [(p, f) for p, f in self.fs if f["kind"] == "scalar" and f["rand"]]
+            consts = [(p, f) for p, f in self.fs if f["kind"] == "scalar" and not f["rand"]]
+            if rands:
+                pr, fr = rnd.choice(rands)
+                lo, hi = type_range(fr["w"], fr["sg"])
+                if consts and rnd.random() < 0.6:
+                    pc, fc = rnd.choice(consts)
+                    lhs = ["bin", rnd.choice(["Add", "Sub"]), ["f", pc], ["lit", rnd.randint(0, 3)]]
+                else:
+                    lhs = ["s", rnd.randint(lo, hi), fr["w"] + 1] if fr["sg"] else ["u", rnd.randint(lo, hi), fr["w"]]
+                return ["bin", rnd.choice(["Ge", "Ge", "Gt", "Le", "Lt"]), lhs, ["f", pr]]
         l, fl = self.operand(depth, True)
         op = rnd.choice(OPS_REL)
         if rnd.random() < 0.5:
